@@ -317,6 +317,13 @@ class Interp:
         """inline a FunctionDef / Lambda.  owner: ClassInfo (for super / name resolution)."""
         if depth > MAX_DEPTH:
             return ("unk", "depth")
+        h = self.hooks.get("fn:" + getattr(fn, "name", "<lambda>")) if self.hooks else None
+        if h is not None:
+            # a rule observes (or replaces) every invocation of a function of this name, however it is reached
+            # (method call, unbound call through a dispatch table, alias)
+            r = h(self, fn, owner, self_val, list(args), dict(kwargs))
+            if r is not None:
+                return r
         a = fn.args
         params = [x.arg for x in a.posonlyargs + a.args]
         env = dict(env0 or {})
@@ -467,6 +474,10 @@ class Interp:
                         b[1].removed.add(k[1])
                     elif b[0] == "dict" and k[0] == "c":
                         b[1].pop(k[1], None)
+                    elif b[0] == "list" and k[0] == "c" and isinstance(k[1], int) and not (len(b) > 2 and b[2]) and -len(b[1]) <= k[1] < len(b[1]):
+                        del b[1][k[1]]
+                    elif b[0] == "list":
+                        self.notes.append("unmodelled deletion from a list: " + unparse(s))
         elif isinstance(s, ast.Break):
             raise _Break()
         elif isinstance(s, ast.Continue):
@@ -841,7 +852,7 @@ class Interp:
                     return ("c", f(l[1], r[1]))
             except Exception:
                 pass
-        if isinstance(op, ast.Mult) and l[0] == "list" and r[0] == "c" and isinstance(r[1], int) and 0 <= r[1] < 64 and not (len(l) > 2 and l[2]):
+        if isinstance(op, ast.Mult) and l[0] == "list" and r[0] == "c" and isinstance(r[1], int) and 0 <= r[1] <= 4096 and not (len(l) > 2 and l[2]):
             return ("list", list(l[1]) * r[1])
         if isinstance(op, ast.Add) and l[0] == "list" and r[0] == "list":
             return ("list", l[1] + r[1], (len(l) > 2 and l[2]) or (len(r) > 2 and r[2])) if (len(l) > 2 and l[2]) or (len(r) > 2 and r[2]) else ("list", l[1] + r[1])
@@ -1223,6 +1234,18 @@ class Interp:
             return ("list", out)
         if isinstance(ce, ast.Name) and ce.id in kc.consts:
             return self.class_const_value(kc, c, kc.consts[ce.id])
+        if isinstance(ce, ast.Name) and ce.id in kc.methods:
+            return ("clsmethod", kc, ce.id)         # a function of the class body used as a value (dispatch tables)
+        if isinstance(ce, ast.Dict) and all(k is not None for k in ce.keys):
+            out = {}
+            for k_, v_ in zip(ce.keys, ce.values):
+                ka = const_alts(Evaluator(self.repo, kc.module, c, class_scope=kc).ev(k_))
+                if ka is None or len(ka) != 1 or not _hashable(ka[0]):
+                    return ("fn", "const", [])
+                out[ka[0]] = self.class_const_value(kc, c, v_)
+            return ("dict", out)
+        if isinstance(ce, ast.Lambda):
+            return ("closure", ce, {"@owner": kc, "@module": kc.module}, kc, None)
         return ("fn", "const", [])
 
     # ------------------------------------------------------------------ calls
@@ -1319,6 +1342,15 @@ class Interp:
                 except Exception:
                     pass
             return ("fn", "len", [a0])
+        if name in ("divmod", "pow", "min", "max") and len(args) >= 2 and all(a[0] == "c" and isinstance(a[1], (int, float)) and not isinstance(a[1], bool) for a in args) and not kwargs:
+            try:
+                import builtins
+                return ("c", getattr(builtins, name)(*[x[1] for x in args]))
+            except Exception:
+                pass
+        if name in ("bytes", "bytearray") and a0 is not None and a0[0] == "list" and not (len(a0) > 2 and a0[2]) and len(args) == 1 \
+                and all(x[0] == "c" and isinstance(x[1], int) and not isinstance(x[1], bool) and 0 <= x[1] < 256 for x in a0[1]):
+            return ("c", bytes(x[1] for x in a0[1]))
         if name in ("str", "int", "float", "bool", "bytes", "bytearray", "repr", "ord", "chr", "abs", "round", "hex"):
             if a0 is not None and a0[0] == "c":
                 try:
@@ -1360,6 +1392,8 @@ class Interp:
                 return ("ext", "str", [])      # attribute values of a decoded stanza are strings
             return ("fn", "type", [a0])
         if name in ("hasattr", "getattr") and len(args) >= 2 and args[1][0] == "c":
+            if name == "getattr" and a0[0] == "ext" and isinstance(args[1][1], str):
+                return ("bound", a0, args[1][1])      # a method of an opaque object fetched by name: calling it is a method call
             v = self.get_attr(a0, args[1][1], env, depth, e)
             if name == "hasattr":
                 return ("c", v[0] != "unset")
@@ -1373,6 +1407,19 @@ class Interp:
                     return ("list", [("c", i) for i in r])
             except Exception:
                 pass
+        if name == "enumerate" and a0 is not None:
+            items = self.iterate(a0)
+            start = args[1] if len(args) > 1 else kwargs.get("start", ("c", 0))
+            if items is not None and start[0] == "c" and isinstance(start[1], int):
+                return ("list", [("list", [("c", start[1] + i), x]) for i, x in enumerate(items)])
+        if name == "zip" and args:
+            cols = [self.iterate(a) for a in args]
+            if all(c is not None for c in cols):
+                return ("list", [("list", list(t)) for t in zip(*cols)])
+        if name in ("any", "all") and a0 is not None:
+            items = self.iterate(a0)
+            if items is not None and all(x[0] == "c" for x in items):
+                return ("c", (any if name == "any" else all)(bool(x[1]) for x in items))
         if name in ("range", "enumerate", "zip", "map", "filter", "iter", "min", "max", "sum", "any", "all"):
             return ("fn", name, list(args))
         if name == "print":
